@@ -1,5 +1,8 @@
 // C19 correspondence harness: drives the real TCPIP::AckTracker with real TCP packets carrying SACK options.
 //   init <ack> <use_sack 0|1>      AckTracker(uint32(ack), use_sack)
+//   finit <ack>                    a TCPIP::Flow with ACK tracking enabled, taken through SYN and the first ACK
+//                                  (Flow::update_state builds AckTracker(ack)); from here on every packet goes
+//                                  through Flow::process_packet and the flow's own tracker is observed
 //   new                            AckTracker()            (ack 0, SACK off)
 //   usesack                        AckTracker::use_sack()
 //   pkt  <ack> [-|<edge>...]       TCP built through the API (TCP::sack), handed over as a bare TCP PDU
@@ -17,6 +20,7 @@
 #include <tins/ip.h>
 #include <tins/ethernetII.h>
 #include <tins/rawpdu.h>
+#include <tins/tcp_ip/flow.h>
 #include <algorithm>
 #include <memory>
 #include <unistd.h>
@@ -86,7 +90,14 @@ static void set_sack(TCP& tcp, const std::vector<std::string>& w, size_t from) {
 }
 
 int main() {
-    std::unique_ptr<AckTracker> t(new AckTracker());
+    std::unique_ptr<AckTracker> own(new AckTracker());
+    std::unique_ptr<TCPIP::Flow> flow;
+    AckTracker* t = own.get();
+    // hand a packet to the tracker under test: directly, or through the flow that owns it
+    auto deliver = [&](PDU& pdu) {
+        if (flow) { flow->process_packet(pdu); t = &flow->ack_tracker(); }
+        else t->process_packet(pdu);
+    };
     return line_loop([&](const std::string& line) -> std::string {
         // every loop of the tracker is bounded (Props.C19.acked_range_two_iterations): an operation that does not
         // come back is reported as a fault of that operation (SIGALRM ends the process, the runner attributes it)
@@ -96,11 +107,30 @@ int main() {
         std::string tag = w[0];
         try {
             if (w[0] == "init" && w.size() >= 3) {
-                t.reset(new AckTracker(u32(w[1]), w[2] == "1"));
+                flow.reset();
+                own.reset(new AckTracker(u32(w[1]), w[2] == "1"));
+                t = own.get();
                 return tag + " " + state(*t);
             }
             if (w[0] == "new") {
-                t.reset(new AckTracker());
+                flow.reset();
+                own.reset(new AckTracker());
+                t = own.get();
+                return tag + " " + state(*t);
+            }
+            if (w[0] == "finit" && w.size() >= 2) {
+                flow.reset(new TCPIP::Flow(IPv4Address("10.0.0.2"), 1234, 1000));
+                flow->enable_ack_tracking();
+                TCP syn(1234, 80);
+                syn.flags(TCP::SYN);
+                syn.seq(1000);
+                flow->process_packet(syn);                 // UNKNOWN -> SYN_SENT
+                TCP ack(1234, 80);
+                ack.flags(TCP::ACK);
+                ack.seq(1001);
+                ack.ack_seq(u32(w[1]));
+                flow->process_packet(ack);                 // SYN_SENT -> ESTABLISHED: AckTracker(ack_seq)
+                t = &flow->ack_tracker();
                 return tag + " " + state(*t);
             }
             if (w[0] == "usesack") {
@@ -113,7 +143,7 @@ int main() {
                 tcp.ack_seq(u32(w[1]));
                 tcp.flags(TCP::ACK);
                 set_sack(tcp, w, 2);
-                t->process_packet(tcp);
+                deliver(tcp);
                 return tag + " " + state(*t) + " grid=" + grid(*t);
             }
             if (w[0] == "pktw" && w.size() >= 2) {
@@ -130,12 +160,12 @@ int main() {
                 bytes exact(buf.begin(), buf.end());
                 exact.shrink_to_fit();
                 EthernetII parsed(exact.data(), uint32_t(exact.size()));
-                t->process_packet(parsed);
+                deliver(parsed);
                 return tag + " " + state(*t) + " grid=" + grid(*t);
             }
             if (w[0] == "pktn") {
                 IP ip = IP("10.0.0.1", "10.0.0.2") / RawPDU("abc");
-                t->process_packet(ip);
+                deliver(ip);
                 return tag + " " + state(*t) + " grid=" + grid(*t);
             }
             if (w[0] == "opt" && w.size() >= 3) {
@@ -145,7 +175,7 @@ int main() {
                 tcp.ack_seq(u32(w[1]));
                 tcp.flags(TCP::ACK);
                 tcp.add_option(TCP::option(TCP::SACK, d.size(), d.data()));
-                t->process_packet(tcp);
+                deliver(tcp);
                 return tag + " " + state(*t) + " grid=" + grid(*t);
             }
             if (w[0] == "q" && w.size() >= 3) {
